@@ -210,9 +210,12 @@ def step (s : St) (e : Ev) : Option (St × Obs) :=
   | .alloc kind =>
     match nextId s.N s.last s.inUse with
     | .ok id =>
-      let (chans', ch) : List Chan × Option Nat := match kind with
-        | .search => (s.chans ++ [({ opIdx := s.ops.length } : Chan)], some s.chans.length)
-        | _ => (s.chans, none)
+      let ch : Option Nat := match kind with
+        | .search => some s.chans.length
+        | _ => none
+      let chans' : List Chan := match kind with
+        | .search => s.chans ++ [({ opIdx := s.ops.length } : Chan)]
+        | _ => s.chans
       some ({ s with last := id, inUse := id :: s.inUse, chans := chans',
                      ops := s.ops ++ [({ id := id, kind := kind, chan := ch } : Op)] }, .id id)
     | .panic => some (s, .allocPanic)
